@@ -757,7 +757,18 @@ def gen_fix_cases(ctx, n, t0=0):
             v = gen_cut_value(rng, start, end)
         elif kind == "multi":
             r = rng.random()
-            if r < 0.75:
+            if r < 0.12:
+                # one output delivered with the dtype of its SIBLING (the other output's declared dtype), the sibling itself
+                # valid and validated first or second: a verdict must not depend on what the plugin accepted before
+                good_pp = dict(t="array", dt="same", rows=[])
+                good_qq = dict(t="array", dt="same", rows=[])
+                sib_for_qq = dict(t="chunk", dt=enc, decl=enc, rows=[], start=start, end=end, label="qq", run_id="r0")
+                sib_for_pp = dict(t="chunk", dt="q", decl="q", rows=[], start=start, end=end, label="pp", run_id="r0")
+                items = [["pp", good_pp], ["qq", sib_for_qq]] if rng.random() < 0.6 else [["pp", sib_for_pp], ["qq", good_qq]]
+                if rng.random() < 0.3:
+                    items.reverse()
+                v = dict(t="outputs", items=items)
+            elif r < 0.75:
                 items = [["pp", gen_value(rng, enc, start, end)], ["qq", gen_value(rng, enc, start, end, for_qq=True)]]
                 if rng.random() < 0.1:
                     items = items[:1] if rng.random() < 0.5 else items + [["extra", dict(t="none")]]
@@ -783,6 +794,53 @@ def gen_fix_cases(ctx, n, t0=0):
             continue   # the offending chunk could not even be constructed inside compute: covered by chunk_init
         cases.append(case)
     return cases
+
+
+# ----------------------------------------------------------------------------- 3b. verdicts do not depend on history
+def _verdict(p, case):
+    result = build_value(case["result"], declared_of(p))
+    start, end = case["range"] if case["range"] else (None, None)
+    return sl.guarded(lambda: show_fixed(p, p._fix_output(result, start, end, sl.parse_runs(case.get("superrun", "-")),
+                                                          sl.parse_runs(case.get("subruns", "-")))))
+
+
+def impl_history(case):
+    """the same results handed to ONE plugin instance in sequence | each handed to a fresh instance"""
+    shared = make_plugin(case["plugin"])
+    seq = [_verdict(shared, dict(c, plugin=case["plugin"])) for c in case["calls"]]
+    fresh = [_verdict(make_plugin(case["plugin"]), dict(c, plugin=case["plugin"])) for c in case["calls"]]
+    return " || ".join(seq) + " ### " + " || ".join(fresh)
+
+
+def oracle_history(case, out):
+    seq, fresh = out.split(" ### ")
+    if seq != fresh:
+        a, b = seq.split(" || "), fresh.split(" || ")
+        i = next(i for i in range(len(a)) if a[i] != b[i])
+        return (f"call {i} on a plugin instance that handled {i} result(s) before gives `{a[i][:60]}`, a fresh instance gives `{b[i][:60]}`: "
+                "acceptance of an output depends on what was accepted earlier")
+    return None
+
+
+def gen_history_cases(ctx, n):
+    rng = ctx.rng
+    cases = []
+    pool = gen_fix_cases(ctx, 6 * n)
+    by_plugin = {}
+    for c in pool:
+        by_plugin.setdefault(json_key(c["plugin"]), []).append(c)
+    for key, cs in by_plugin.items():
+        multi = cs[0]["plugin"]["kind"] == "multi"
+        for _ in range(max(1, (n * len(cs)) // max(1, len(pool)) * (3 if multi else 1))):
+            k = rng.randint(2, 3)
+            calls = [dict((kk, vv) for kk, vv in rng.choice(cs).items() if kk != "plugin") for _ in range(k)]
+            cases.append(dict(plugin=cs[0]["plugin"], calls=calls))
+    return cases[: 2 * n]
+
+
+def json_key(x):
+    import json
+    return json.dumps(x, sort_keys=True)
 
 
 CUT_DT = None
@@ -1768,6 +1826,7 @@ def run(ctx):
                         "with one defect; superrun and subruns annotations incl. superrun run ids",
                    branch=lambda c, o: c["plugin"]["kind"] + ":" + c["result"]["t"] + ":" + " ".join(o.split(" ")[:2 if o.startswith("err") else 1]))
     dcases = gen_down_cases(ctx, ctx.pick(8000, 40000))
+    ctx.check_oracle("fix_output/history", gen_history_cases(ctx, ctx.pick(1500, 8000)), impl_history, oracle_history)
     ctx.correspond("fix_output_down", dcases, impl_fixdown, op_fixdown, oracle_fixdown, nontrivial=lambda c, o: bool(c["items"]),
                    rule="real DownChunkingPlugin instances (single / multi-output) x generators of 0..4 items: chunks with right / wrong "
                         "label, right / wrong dtype, dicts with missing / extra keys, non-chunks; or no generator at all; compared: what "
